@@ -120,13 +120,25 @@ def _size_guard(ck, prog, f, construct):
     for s in f.body():
         if isinstance(s, ast.If) and isinstance(s.test, ast.Compare) and isinstance(s.test.ops[0], ast.NotIn) \
                 and unparse(s.test.left) == "alphabetSize" and any(isinstance(x, ast.Raise) for x in s.body):
+            cmp0 = s.test.comparators[0]
             try:
-                lst = ast.literal_eval(s.test.comparators[0])
+                lst = ast.literal_eval(cmp0)
             except Exception:
                 lst = None
+                # a named table: the keys (members) of the module-level constant it folds to
+                g = prog.resolve_global(f.mod, cmp0) if isinstance(cmp0, (ast.Name, ast.Attribute)) else None
+                if g and g[1] in g[0].globals:
+                    from lcsa import tab
+                    try:
+                        v = tab.global_literal(prog, g[0].rel, g[1])
+                        lst = [int(k) for k in (v.keys() if isinstance(v, dict) else v)]
+                    except (Undecided, TypeError, ValueError):
+                        lst = None
             guard = (s, lst)
             break
-    ok = guard is not None and guard[1] is not None and sorted(guard[1]) == SIZES
+    # (sizes -2..30 are decided one by one above; this rule extends the rejection to every other integer when the guard is visible)
+    ck.shape(guard is not None and guard[1] is not None, "reduce_alphabet: sizes rejected by `if alphabetSize not in <list or table that folds>: raise`", f.loc())
+    ok = sorted(guard[1]) == SIZES
     ck.ob("DT-size", construct, ok, expected="raise unless size in %s" % SIZES, found=guard[1] if guard else None,
           slot="size-guard", where=f.loc(guard[0]) if guard else f.loc())
 
